@@ -23,6 +23,7 @@ var (
 	fMinTries = flag.Int("mintries", 400, "minimiser budget (executions)")
 	fDump     = flag.Bool("dump", false, "print the generated tape and exit")
 	fNoMin    = flag.Bool("nomin", false, "do not minimise")
+	fMaxRSS   = flag.Int("maxrss", 3000, "stop starting new seeds when resident memory exceeds this many MB (the driver re-queues the rest)")
 )
 
 // TestSim is the single entry point of the qedsim binary.
@@ -101,6 +102,9 @@ func TestSim(t *testing.T) {
 		if *fBudget > 0 && time.Since(start) > *fBudget {
 			break
 		}
+		if i > 0 && rssMB() > *fMaxRSS {
+			break
+		}
 		seed := *fSeed0 + uint64(i)
 		tape := p.Gen(seed, *fTier)
 		tape.Prop, tape.Seed, tape.Tier, tape.Harness = p.ID, seed, *fTier, HarnessVersion
@@ -154,4 +158,14 @@ func TestSim(t *testing.T) {
 		}
 		emit(res)
 	}
+}
+
+func rssMB() int {
+	b, err := os.ReadFile("/proc/self/statm")
+	if err != nil {
+		return 0
+	}
+	var size, rss int
+	fmt.Sscanf(string(b), "%d %d", &size, &rss)
+	return rss * 4096 >> 20
 }
